@@ -6,6 +6,7 @@
 #include <stddef.h>
 #include <stdint.h>
 #include <algorithm>
+#include <cmath>
 #include <memory>
 #include <vector>
 
@@ -121,6 +122,27 @@ template <class T>
 size_t BucketBinarySearch(T value, const std::vector<double> &boundaries)
 {
   auto low = std::lower_bound(boundaries.begin(), boundaries.end(), value);
+  return low - boundaries.begin();
+}
+
+// An integer value is compared with the (double) boundaries exactly. Converting the value to
+// double first would round values beyond 2^53, possibly onto a boundary they actually exceed.
+inline size_t BucketBinarySearch(int64_t value, const std::vector<double> &boundaries)
+{
+  auto low = std::lower_bound(boundaries.begin(), boundaries.end(), value,
+                              [](double boundary, int64_t v) {
+                                if (!(boundary < 9223372036854775808.0))
+                                {
+                                  return false;  // boundary >= 2^63 (or NaN): not below any int64
+                                }
+                                if (boundary < -9223372036854775808.0)
+                                {
+                                  return true;  // boundary < -2^63: below every int64
+                                }
+                                // floor(boundary) is in [-2^63, 2^63) and exactly representable;
+                                // for an integer v: boundary < v  <=>  floor(boundary) < v
+                                return static_cast<int64_t>(std::floor(boundary)) < v;
+                              });
   return low - boundaries.begin();
 }
 
